@@ -171,6 +171,11 @@ TCompare ==
   /\ CompareOK(st[Ev.obj], st[Ev.args.other])
   /\ UNCHANGED <<st, hl, memo>>
 
+TMaint ==
+  /\ IsEvent("Maint")
+  /\ Maint(Ev.args, Ev.res, Ev.post)
+  /\ UNCHANGED <<st, hl, memo>>
+
 TFaulted ==
   /\ IsEvent("Faulted")
   /\ Faulted(Ev.post, Ev.args, Ev.res)
@@ -196,7 +201,7 @@ TRawCheck ==
 
 TraceNext ==
   \/ TRawCall \/ TRawCheck \/ TInsertCopy \/ TAdopt
-  \/ TFaulted
+  \/ TFaulted \/ TMaint
   \/ TReset \/ TConstruct \/ TInsert \/ TRemove \/ TFlip \/ TRepair \/ TVerdicts
   \/ TEmpty \/ TSetPolicy \/ TLocate \/ THullCreate \/ THullQuery \/ TQueries
   \/ TClone \/ TSerDe \/ TCompare \/ TCanon \/ TConflict
